@@ -20,6 +20,7 @@ import (
 	"go/token"
 	"go/types"
 	"reflect"
+	"sort"
 	"strings"
 	"unsafe"
 
@@ -609,6 +610,38 @@ func (il *inliner) finish() {
 	}
 	il.threadReturns()
 	il.splitReturns()
+	il.cleanup()
+	// scalar replacement of local structs whose fields are only loaded and stored (working
+	// state gathered in a struct and updated by helper methods that were expanded): the fields
+	// become SSA values, as if they had been separate local variables
+	if il.liftAggregates() {
+		apply()
+		for i := 0; i < 10; i++ {
+			a := il.mergePhiBlocks()
+			b := il.threadJumps()
+			apply()
+			if !a && !b {
+				break
+			}
+		}
+		il.cleanup()
+	}
+}
+
+// cleanup removes unreachable blocks and single-edge phis, applies pending substitutions,
+// renumbers, and rebuilds referrers, locals and dominator information.
+func (il *inliner) cleanup() {
+	apply := func() {
+		for _, b := range il.blocks {
+			for _, in := range b.Instrs {
+				for _, op := range in.Operands(nil) {
+					if *op != nil {
+						*op = il.resolve(*op)
+					}
+				}
+			}
+		}
+	}
 	// reachability
 	reach := map[*ssa.BasicBlock]bool{}
 	var dfs func(b *ssa.BasicBlock)
@@ -1338,4 +1371,284 @@ func (p *Program) foldWrapper(in *ssa.Function, call *ssa.Call, h *ssa.Function)
 		return w.fn, args
 	}
 	return nil, nil
+}
+
+// liftAggregates: see finish. Requires referrers and dominators (cleanup). Reports whether
+// anything changed; the caller applies il.subst and cleans up again.
+func (il *inliner) liftAggregates() bool {
+	if il.nf.Recover != nil {
+		return false
+	}
+	type fieldVar struct {
+		a *ssa.Alloc
+		f int
+	}
+	isLoad := func(in ssa.Instruction, addr ssa.Value) bool {
+		u, ok := in.(*ssa.UnOp)
+		return ok && u.Op == token.MUL && u.X == addr
+	}
+	cands := map[*ssa.Alloc]*types.Struct{}
+	fieldOf := map[*ssa.FieldAddr]fieldVar{}
+	for _, b := range il.blocks {
+	next:
+		for _, in := range b.Instrs {
+			a, ok := in.(*ssa.Alloc)
+			if !ok {
+				continue
+			}
+			pt, ok := a.Type().Underlying().(*types.Pointer)
+			if !ok {
+				continue
+			}
+			st, ok := pt.Elem().Underlying().(*types.Struct)
+			if !ok || a.Referrers() == nil || len(*a.Referrers()) == 0 {
+				continue
+			}
+			var fas []*ssa.FieldAddr
+			for _, r := range *a.Referrers() {
+				fa, ok := r.(*ssa.FieldAddr)
+				if !ok || fa.X != ssa.Value(a) || fa.Referrers() == nil {
+					continue next
+				}
+				for _, u := range *fa.Referrers() {
+					if isLoad(u, fa) {
+						continue
+					}
+					if s, ok := u.(*ssa.Store); ok && s.Addr == ssa.Value(fa) && s.Val != ssa.Value(fa) {
+						continue
+					}
+					continue next
+				}
+				fas = append(fas, fa)
+			}
+			cands[a] = st
+			for _, fa := range fas {
+				fieldOf[fa] = fieldVar{a, fa.Field}
+			}
+		}
+	}
+	if len(cands) == 0 {
+		return false
+	}
+	// definition blocks per variable
+	defs := map[fieldVar]map[*ssa.BasicBlock]bool{}
+	addDef := func(v fieldVar, b *ssa.BasicBlock) {
+		if defs[v] == nil {
+			defs[v] = map[*ssa.BasicBlock]bool{}
+		}
+		defs[v][b] = true
+	}
+	used := map[fieldVar]bool{}
+	for _, b := range il.blocks {
+		for _, in := range b.Instrs {
+			switch x := in.(type) {
+			case *ssa.Alloc:
+				if st, ok := cands[x]; ok {
+					for f := 0; f < st.NumFields(); f++ {
+						addDef(fieldVar{x, f}, b)
+					}
+				}
+			case *ssa.Store:
+				if fa, ok := x.Addr.(*ssa.FieldAddr); ok {
+					if v, ok := fieldOf[fa]; ok {
+						addDef(v, b)
+					}
+				}
+			case *ssa.UnOp:
+				if fa, ok := x.X.(*ssa.FieldAddr); ok && x.Op == token.MUL {
+					if v, ok := fieldOf[fa]; ok {
+						used[v] = true
+					}
+				}
+			}
+		}
+	}
+	// dominance frontiers
+	df := map[*ssa.BasicBlock][]*ssa.BasicBlock{}
+	for _, b := range il.blocks {
+		if len(b.Preds) < 2 {
+			continue
+		}
+		for _, p := range b.Preds {
+			for r := p; r != nil && r != b.Idom(); r = r.Idom() {
+				dup := false
+				for _, x := range df[r] {
+					dup = dup || x == b
+				}
+				if !dup {
+					df[r] = append(df[r], b)
+				}
+			}
+		}
+	}
+	// phi placement (iterated dominance frontier of the definition blocks), only for fields
+	// that are read somewhere
+	type placed struct {
+		v  fieldVar
+		ph *ssa.Phi
+	}
+	phisAt := map[*ssa.BasicBlock][]placed{}
+	var vars []fieldVar
+	for v := range defs {
+		if used[v] {
+			vars = append(vars, v)
+		}
+	}
+	sort.Slice(vars, func(i, j int) bool {
+		if vars[i].a != vars[j].a {
+			bi, bj := vars[i].a.Block().Index, vars[j].a.Block().Index
+			if bi != bj {
+				return bi < bj
+			}
+			return vars[i].a.Name() < vars[j].a.Name()
+		}
+		return vars[i].f < vars[j].f
+	})
+	for _, v := range vars {
+		has := map[*ssa.BasicBlock]bool{}
+		var work []*ssa.BasicBlock
+		for b := range defs[v] {
+			work = append(work, b)
+		}
+		sort.Slice(work, func(i, j int) bool { return work[i].Index < work[j].Index })
+		for len(work) > 0 {
+			b := work[len(work)-1]
+			work = work[:len(work)-1]
+			for _, y := range df[b] {
+				if has[y] {
+					continue
+				}
+				has[y] = true
+				ph := new(ssa.Phi)
+				ph.Comment = cands[v.a].Field(v.f).Name()
+				ph.Edges = make([]ssa.Value, len(y.Preds))
+				setUnexported(ph, "block", y)
+				setUnexported(ph, "typ", cands[v.a].Field(v.f).Type())
+				setUnexported(ph, "pos", v.a.Pos())
+				phisAt[y] = append(phisAt[y], placed{v, ph})
+				if !defs[v][y] {
+					work = append(work, y)
+				}
+			}
+		}
+	}
+	// renaming along the dominator tree
+	zero := func(v fieldVar) ssa.Value { return ssa.NewConst(nil, cands[v.a].Field(v.f).Type()) }
+	var rename func(b *ssa.BasicBlock, cur map[fieldVar]ssa.Value)
+	rename = func(b *ssa.BasicBlock, in map[fieldVar]ssa.Value) {
+		cur := make(map[fieldVar]ssa.Value, len(in))
+		for k, v := range in {
+			cur[k] = v
+		}
+		for _, pl := range phisAt[b] {
+			cur[pl.v] = pl.ph
+		}
+		keep := b.Instrs[:0:0]
+		for _, ins := range b.Instrs {
+			switch x := ins.(type) {
+			case *ssa.Alloc:
+				if st, ok := cands[x]; ok {
+					for f := 0; f < st.NumFields(); f++ {
+						cur[fieldVar{x, f}] = zero(fieldVar{x, f})
+					}
+					continue
+				}
+			case *ssa.FieldAddr:
+				if _, ok := fieldOf[x]; ok {
+					continue
+				}
+			case *ssa.Store:
+				if fa, ok := x.Addr.(*ssa.FieldAddr); ok {
+					if v, ok := fieldOf[fa]; ok {
+						cur[v] = il.resolve(x.Val)
+						continue
+					}
+				}
+			case *ssa.UnOp:
+				if fa, ok := x.X.(*ssa.FieldAddr); ok && x.Op == token.MUL {
+					if v, ok := fieldOf[fa]; ok {
+						val := cur[v]
+						if val == nil {
+							val = zero(v)
+						}
+						il.subst[x] = val
+						continue
+					}
+				}
+			}
+			keep = append(keep, ins)
+		}
+		b.Instrs = keep
+		for _, s := range b.Succs {
+			for k, p := range s.Preds {
+				if p != b {
+					continue
+				}
+				for _, pl := range phisAt[s] {
+					if pl.ph.Edges[k] != nil {
+						continue
+					}
+					val := cur[pl.v]
+					if val == nil {
+						val = zero(pl.v)
+					}
+					pl.ph.Edges[k] = val
+				}
+				// a block may be listed twice as predecessor (both arms of an If): fill each slot
+			}
+		}
+		for _, d := range b.Dominees() {
+			rename(d, cur)
+		}
+	}
+	rename(il.blocks[0], map[fieldVar]ssa.Value{})
+	// insert the phis that are (transitively) used by something else than phis; drop the rest
+	live := map[*ssa.Phi]bool{}
+	isPlaced := map[ssa.Value]*ssa.Phi{}
+	for _, pls := range phisAt {
+		for _, pl := range pls {
+			isPlaced[pl.ph] = pl.ph
+		}
+	}
+	var mark func(v ssa.Value)
+	mark = func(v ssa.Value) {
+		v = il.resolve(v)
+		ph, ok := isPlaced[v]
+		if !ok || live[ph] {
+			return
+		}
+		live[ph] = true
+		for _, e := range ph.Edges {
+			if e != nil {
+				mark(e)
+			}
+		}
+	}
+	for _, b := range il.blocks {
+		for _, ins := range b.Instrs {
+			for _, op := range ins.Operands(nil) {
+				if *op != nil {
+					mark(*op)
+				}
+			}
+		}
+	}
+	for _, b := range il.blocks {
+		var phis []ssa.Instruction
+		for _, pl := range phisAt[b] {
+			if !live[pl.ph] {
+				continue
+			}
+			for k, e := range pl.ph.Edges {
+				if e == nil {
+					pl.ph.Edges[k] = zero(pl.v) // unreachable predecessor
+				}
+			}
+			phis = append(phis, pl.ph)
+		}
+		if len(phis) > 0 {
+			b.Instrs = append(phis, b.Instrs...)
+		}
+	}
+	return true
 }
